@@ -114,3 +114,18 @@ def _name(op, a, b):
 
 def is_equivalent(a, b):
     return a.same_dims(b)
+
+
+def unit_sqrt(a):
+    """Square root of a unit whose dimension exponents are all even (e.g. mJy^2 -> mJy)."""
+    import math
+    if any(v % 2 for v in a.dims.values()):
+        raise ValueError("square root of a unit with odd dimensions")
+    dims = dict((k, v // 2) for k, v in a.dims.items())
+    sc = _exact(a.scale)
+    if isinstance(sc, F):
+        rn, rd = math.isqrt(sc.numerator), math.isqrt(sc.denominator)
+        if rn * rn == sc.numerator and rd * rd == sc.denominator:
+            return Unit("sqrt(%s)" % a.name, F(rn, rd), dims)
+    from .sym import mathfn
+    return Unit("sqrt(%s)" % a.name, mathfn('sqrt', sc), dims)
